@@ -4,6 +4,7 @@ in a scratch worktree: demo passes on HEAD, fails with the patch; the whole
 suite passes with the patch alone.  Writes /tmp/seedout/<id>/confirm.json."""
 import json, os, re, subprocess, sys
 WT="/tmp/wt/verify"
+FEAT=os.environ.get("VERIFY_FEATURES","")  # e.g. "--features security" for demos behind that feature
 def sh(cmd, cwd=WT, timeout=3600):
     p=subprocess.run(cmd, shell=True, cwd=cwd, capture_output=True, text=True, timeout=timeout)
     return p.returncode, p.stdout+p.stderr
@@ -21,7 +22,7 @@ def run_tests(names):
     # returns (passed, failed) counts over the named tests
     ok=0; bad=0; out_all=""
     for n in names:
-        rc,out=sh(f"cargo test --lib --offline {n} 2>&1 | tail -15")
+        rc,out=sh(f"cargo test --lib --offline {FEAT} {n} 2>&1 | tail -15")
         out_all+=out
         m=re.search(r'test result: (\w+)\. (\d+) passed; (\d+) failed', out)
         if m and m.group(1)=='ok' and int(m.group(2))>=1: ok+=1
